@@ -527,10 +527,10 @@ pub fn run(tier: Tier, seed: u64) -> ! {
 
     // laws: pool exhaustively; random values among themselves and against the pool
     let pool = vals::pool();
-    hashable_laws(&mut rep, &pool, &mut rng, tier.pick(20_000, 400_000));
+    hashable_laws(&mut rep, &pool, &mut rng, tier.pick(60_000, 400_000));
     orderable_laws(&mut rep, &pool, &mut rng, tier == Tier::Thorough, 300_000);
-    hashable_laws(&mut rep, &vs, &mut rng, tier.pick(20_000, 400_000));
-    orderable_laws(&mut rep, &vs, &mut rng, false, tier.pick(200_000, 4_000_000));
+    hashable_laws(&mut rep, &vs, &mut rng, tier.pick(60_000, 400_000));
+    orderable_laws(&mut rep, &vs, &mut rng, false, tier.pick(600_000, 4_000_000));
 
     roundtrips(&mut rep, &vs);
     engine_roundtrips(&mut rep, &vs);
